@@ -129,7 +129,7 @@ class C03(core.Check):
     required_buckets = {b: 3 for b in ['s:0', 's:<first', 's:=first', 's:mid-line', 's:in-gap', 's:>last', 's:=last',
                                        'e:absent', 'e:=last', 'e:mid-line', 'e:in-gap', 'e:>last', 'e:=last+1',
                                        'e:mid-line/same-line', 'last:byte', 'last:label', 'last:muted', 'last:zero-length',
-                                       'last:org', 'fill!=0', 'predefined-data', 'muted-region']}
+                                       'last:org', 'fill!=0', 'predefined-data', 'muted-region', 'stale-longer-image-present']}
 
     def make_case(self, isa, lines, res, lk, s, e, fill, tags):
         fn, text = isamod.render_isa(isa, 'json')
@@ -145,7 +145,13 @@ class C03(core.Check):
         exp = layout.image(M, s, e, fill)
         ok = layout.overlaps(res)[0]
         span = (e if e is not None else (max(M) if M else 0)) + 1
-        return {'runs': [{'files': {fn: text, 'p.asm': src}, 'argv': argv, 'probes': ['steps', 'files'],
+        files = {fn: text, 'p.asm': src}
+        self._n = getattr(self, '_n', 0) + 1
+        if self._n % 3 == 0:
+            # an older, longer image is already there: the new image replaces it completely
+            files['out.bin'] = 'Z' * (span + 500)
+            tags = list(tags) + ['stale-longer-image-present']
+        return {'runs': [{'files': files, 'argv': argv, 'probes': ['steps', 'files'],
                           'step_limit': 60 * span + 20000}],
                 'meta': {'expected': None if exp is None else exp.hex(), 'kind': res.kind if ok == 'ACCEPT' else ok,
                          'why': (res.reason or res.kind) if ok == 'ACCEPT' else 'overlap:' + ok,
